@@ -5,6 +5,8 @@ pub struct G {
     pub fail_q: Seq<messages::HtlcAcceptedResponse>,   // contents of the fail_requested channel
     pub held: Seq<HeldAbs>,                            // HTLCs held (unanswered) in this entry
     pub ever_ready_sent: bool,
+    pub via_listener: bool,
+    pub incoming: u64,                                 // amount of the HTLC handle_htlc is about to add (input-validity bound below)                            // handle_htlc's answer was taken from its own oneshot receiver
 }
 pub open spec fn sum_held(s: Seq<HeldAbs>) -> int decreases s.len() {
     if s.len() == 0 { 0 } else { sum_held(s.drop_last()) + s.last().amount as int }
@@ -30,14 +32,16 @@ impl mpsc::Sender<()> {
     /// therefore requires room.
     #[verifier::external_body]
     pub fn send(&self, t: (), Tracked(g): Tracked<&mut G>) -> (r: ::std::result::Result<(), mpsc::SendError<()>>)
-        requires old(g).ready_q.len() < 1,          // #send_never_blocks [C06,C14]
+        requires
+            old(g).ready_q.len() < 1,          // #send_never_blocks [C06,C14]
         ensures *final(g) == (G { ready_q: old(g).ready_q.push(t), ever_ready_sent: true, ..*old(g) }),
     { unimplemented!() }
 }
 impl mpsc::Sender<messages::HtlcAcceptedResponse> {
     #[verifier::external_body]
     pub fn send(&self, t: messages::HtlcAcceptedResponse, Tracked(g): Tracked<&mut G>) -> (r: ::std::result::Result<(), mpsc::SendError<messages::HtlcAcceptedResponse>>)
-        requires old(g).fail_q.len() < 1,           // #send_never_blocks [C06,C14]
+        requires
+            old(g).fail_q.len() < 1,           // #send_never_blocks [C06,C14]
             t is Fail,                              // #fail_channel_carries_only_fail [C02]
         ensures *final(g) == (G { fail_q: old(g).fail_q.push(t), ..*old(g) }),
     { unimplemented!() }
